@@ -22,6 +22,18 @@ CHECKS = {
     'C18': ('exhaustive enumeration of all constraint expression trees of depth<=2 (8 operators, 2 / 3 names) plus depth-3 spines and an arithmetic/aggregate alphabet on real Constraint objects; equivalences decided by complete truth tables',
             'Every tree up to the bound is turned into a real Constraint; every predicate, the left/right extraction and split_constraint run on it; soundness is decided by complete truth tables, and the AST is snapshotted (structure and node identity) before and after.',
             'Trusts vmc.sem.ev. Known findings: XOR / EQUIVALENCE handling of flamapy.core simplify_formula (dependency).', '3 C18'),
+    'C16': ('explicit-state enumeration of the complete structure space, parametric families and a complete sweep of the shipped corpus, six real operations against definitions evaluated on the shadow tree / an independent XML walker',
+            'Every tree up to the bound (incl. the root-only model), chains/wide groups/combs/binary trees beyond it, and every shipped FaMa/Betty file are analysed by the six operations; each result is compared with the definition computed on the shadow; ancestors for every feature.',
+            'Trusts vmc.lang.fama (independent ElementTree walker) for corpus files. Random larger models are replaced by deterministic families.', '3 C16'),
+    'C17': ('explicit-state enumeration of structure x abstract-flag x constraint spaces, all metric-filter subsets up to size 2 and all execution histories up to length 3 on one FMMetrics object, against definitions on the shadow',
+            'Every state: the report is total, has the 40 names once each, size/ratio rules and the split identities hold, each metric equals its definition on the shadow and the stand-alone operations; filters and object reuse are enumerated exhaustively within the bound.',
+            'Trusts the metric table (names, reference listings) restated from the property; logical constraints only, as the property quantifies.', '3 C17'),
+    'C19': ('explicit-state exploration of operation-object histories (length<=3 over a 32-model alphabet, 10 operations, all ordered operation pairs) and deviation-bounded stateless exploration of every random choice sequence of attribute generation through a choice-point controller',
+            'After every step of every history the result must equal a fresh object\'s result and the deep model snapshot must be unchanged; random.choice/randint/uniform inside the generator are replaced by a controller whose every answer sequence (up to 3/4 non-default answers) is executed; prefix replay divergence is a hard error.',
+            'Assumes the module attribute `random` of fm_generate_random_attribute is the only randomness; menus for randint/uniform are boundary/middle representatives, not all values.', '3 C19'),
+    'C20': ('explicit-state enumeration of the structure space x constraint lists; for each state every permutation of children/relations/constraints (independent rebuild) and every single-point edit, checked against the eq/hash contract',
+            'Every model up to the bound is compared with every order-permuted independent rebuild (must be equal, hashes equal, usable in sets) and with every single edit (must be unequal); element-level contracts for Feature, Relation, Constraint.',
+            'Permutation products above 720 fall back to all adjacent transpositions plus the full reversal (reported in the evidence).', '3 C20'),
 }
 
 REASON_TODO = 'check not built yet in this session; planned in DESIGN.md section 3 (model checking applies)'
